@@ -412,7 +412,62 @@ def np_summaries():
     def sort(a):
         vals = sorted(_as_int(v, 10 ** 9) for v in SymArr.of(a).flat)
         return SymArr((len(vals),), vals)
+    def repeat(a, n, axis=None):
+        a = SymArr.of(a)
+        if axis is None:
+            return SymArr((a.size * n,), [x for x in a.flat for _ in range(n)])
+        axis = axis % a.ndim
+        shape = tuple(s * n if k == axis else s for k, s in enumerate(a.shape))
+        out = SymArr.zeros(shape)
+        for idx in itertools.product(*[range(x) for x in shape]):
+            src = tuple(v // n if k == axis else v for k, v in enumerate(idx))
+            out[idx] = a.at(src)
+        return out
+
+    def tile(a, reps):
+        a = SymArr.of(a)
+        reps = (reps,) if isinstance(reps, int) else tuple(reps)
+        if a.ndim < len(reps):
+            a = a.reshape((1,) * (len(reps) - a.ndim) + a.shape)
+        reps = (1,) * (a.ndim - len(reps)) + reps
+        shape = tuple(s * r for s, r in zip(a.shape, reps))
+        out = SymArr.zeros(shape)
+        for idx in itertools.product(*[range(x) for x in shape]):
+            out[idx] = a.at(tuple(v % s for v, s in zip(idx, a.shape)))
+        return out
+
+    def concatenate(seq, axis=0):
+        arrs = [SymArr.of(x) for x in seq]
+        if arrs[0].ndim == 1:
+            return SymArr((sum(x.size for x in arrs),), [e for x in arrs for e in x.flat])
+        if axis == 0:
+            return bmat([[x] for x in arrs])
+        return bmat([arrs])
+
+    def empty_like(a, dtype=None, shape=None, **k):
+        return SymArr.zeros(shape if shape is not None else SymArr.of(a).shape)
+
+    def diag(a):
+        a = SymArr.of(a)
+        if a.ndim == 1:
+            out = SymArr.zeros((a.size, a.size))
+            for i in range(a.size):
+                out[i, i] = a.flat[i]
+            return out
+        n_ = min(a.shape)
+        return SymArr((n_,), [a.at((i, i)) for i in range(n_)])
+
+    def outer(a, b):
+        a, b = SymArr.of(a).flatten(), SymArr.of(b).flatten()
+        return SymArr((a.size, b.size), [x * y for x in a.flat for y in b.flat])
     d = {
+        "np.repeat": repeat, "np.tile": tile, "np.concatenate": concatenate, "np.hstack": lambda seq: concatenate(seq, 1),
+        "np.vstack": lambda seq: bmat([[_as2d(x)] for x in seq]), "np.stack": lambda seq, axis=0: SymArr.of([SymArr.of(x).tolist() for x in seq]),
+        "np.empty_like": empty_like, "np.zeros_like": empty_like, "np.empty": lambda s_, *a, **k: SymArr.zeros(s_),
+        "np.ones_like": lambda a, **k: SymArr.ones(SymArr.of(a).shape), "np.diag": diag, "np.outer": outer,
+        "np.multiply": lambda a, b: SymArr.of(a) * b, "np.size": lambda a, *x: SymArr.of(a).size, "np.shape": lambda a: SymArr.of(a).shape,
+        "np.squeeze": lambda a: SymArr(tuple(x for x in SymArr.of(a).shape if x != 1), SymArr.of(a).flat),
+        "np.arange": lambda *a: SymArr.of(list(range(*a))), "np.atleast_1d": lambda a: SymArr.of(a) if SymArr.of(a).ndim else SymArr.of(a).reshape(1),
         "np.reshape": reshape, "np.array": array, "np.asarray": array, "np.zeros": zeros, "np.ones": lambda s, *a, **k: SymArr.ones(s),
         "np.eye": lambda n, *a, **k: SymArr.eye(n), "np.identity": lambda n: SymArr.eye(n),
         "np.dot": dot, "np.kron": kron, "np.append": append, "np.bmat": bmat, "np.transpose": lambda a: SymArr.of(a).T,
